@@ -18,6 +18,10 @@ class _Leaf(Shape):
     def leaf(self, mk, name, idx):
         if idx is None:
             return mk.const(name, self.sort)
+        ua = getattr(mk, 'uf_args', None)
+        if ua is not None:      # element of a sequence inside a parse result: function of (array, position, index)
+            f = z3.Function(name, ArrS, IntS, IntS, self.sort)
+            return f(ua[0], ua[1], idx)
         f = z3.Function(mk.fname(name), IntS, self.sort)
         return f(idx)
 
@@ -223,10 +227,28 @@ class ListOf(Shape):
         n = mk.const(name + '.len', IntS)
         mk.assume(n >= 0)
         inner = self.inner
+        base = mk.fname(name + '[]')      # element functions are fixed when the list is created
 
-        def elem(i, _name=name):
-            return inner.make(mk.current(), _name + '[]', i)
+        def elem(i, _base=base):
+            from .vals import to_int
+            return inner.make(_StableNames(mk.current()), _base, to_int(i))
         return SList(elem, n, name)
+
+
+class _StableNames:
+    """maker view that does not rename: the same element function for every access"""
+
+    def __init__(self, mk):
+        self._mk = mk
+        ua = getattr(mk, 'uf_args', None)
+        if ua is not None:
+            self.uf_args = ua
+
+    def fname(self, name):
+        return name
+
+    def __getattr__(self, n):
+        return getattr(self._mk, n)
 
 
 class StructsT(Shape):
